@@ -11,12 +11,13 @@ from harness.common import REPO, Ck, coq_list, parse_coq_N_list
 from translate import c11_formats, c11_glue
 
 MANIFEST = dict(
-    technique='Rocq proof (struct pack/unpack model for all formats, RLE codec, index builders with key functions, texture string table, '
-              'entity lump text, visibility row size, bit fields, flag splits, main overlay block) + generic theorems over '
-              'format/layout/guard/dispatch/field-order/template/dedup-key/helper-property tables regenerated from bsp.py, binformat.py and '
-              'vmf.py by fail-closed ast translators that read a normalised tree + vm_compute correspondence (struct, RLE, row size, '
-              'find_or_insert/extend with and without key, texture table, entity lump; byte-exact) + field-by-field save/re-read oracle',
-    text='Theorems in Props/C11.v (39): for every struct format of the modelled language and every fitting record unpack(pack v) = v; '
+    technique='Rocq proof (struct pack/unpack model for all formats, RLE codec, index builders with key functions, work-list loops over '
+              'index tables, texture string table, entity lump text, visibility row size, bit fields, flag splits, main overlay block, '
+              'PHYSCOLLIDE blocks, DeferredWrites) + generic theorems over format/layout/guard/dispatch/field-order/template/dedup-key/'
+              'helper-property/loop-shape/rebuild-order/physics-header tables regenerated from bsp.py, binformat.py and vmf.py by fail-closed '
+              'ast translators + vm_compute correspondence (struct, RLE, row size, find_or_insert/extend with and without key, texture table, '
+              'entity lump, PHYSCOLLIDE, DeferredWrites; byte-exact) + field-by-field save/re-read oracle',
+    text='Theorems in Props/C11.v (50): for every struct format of the modelled language and every fitting record unpack(pack v) = v; '
          'pack succeeds only if every integer is inside its field (out-of-range raises); Ns fields pad and silently truncate, '
          'so a guarded site never truncates; run-length decoding inverts encoding for every byte list, alone and at its offset '
          'inside the lump; an integer expression that passes the decision procedure rowsize_ok equals ceil(n/8) for EVERY cluster count and '
@@ -26,30 +27,50 @@ MANIFEST = dict(
          'fields are escaped (raw keys are refuted); find_or_insert / find_or_extend return indexes that denote the requested items; a '
          'de-duplicating table with ANY key function answers every request with the record of the requested object as soon as the key '
          'determines the record (key_determines; a key by material name is refuted), and the index packed into the referring record leads '
-         'the reader back to that record (reference_roundtrip); hi << k | lo is inverted by shift and mask; a value split over several fields '
+         'the reader back to that record (reference_roundtrip); the loop of a writer over the LIVE list its own find_or_insert appends to '
+         '(_lmp_write_nodes) is a work-list closure: when it ends there is exactly one record per table entry at its own index, no object '
+         'has two indexes, the listed roots keep their positions, every stored index resolves to the object referred to, the table holds '
+         'exactly the objects reachable from the roots, and it ends after at most |reachable|+1 steps (a loop over a snapshot of the list '
+         'is refuted: an index is handed out, the record is never written); every loop shape that passes wl_entry_ok has that closure '
+         'property; LUMP_REBUILD_ORDER runs every writer that appends to another view before the writer of that view; hi << k | lo is '
+         'inverted by shift and mask; a value split over several fields '
          'by helper properties is put together again when the parts tile the bits and the last is unmasked (a masked high part is refuted); '
          'a boolean stored as one of two codes comes back iff the reader compares with the true-code; the main overlay block (3 values, face '
          'array with padding, 22 floats) written by four pack calls is byte for byte the block the reader unpacks and every position is read '
-         'back into the attribute it came from, for every face count (overlay_block_roundtrip; pad bytes = zero integers; pack_app). '
+         'back into the attribute it came from, for every face count; every list of physics blocks the PHYSCOLLIDE format can hold (model '
+         'index, solids as length + bytes, keyvalues text + NUL, sentinel header) is read back unchanged when both sides use one order of '
+         'the four header values, one sentinel and one order of the sections (a swapped header is refuted); a file written with '
+         'DeferredWrites (slots reserved, set later, filled in at the end) is the file of a two-pass writer in which every slot holds the '
+         'value set last for its key (a slot never set is an error). '
          'Generic over the tables generated from today\'s source: every reader/writer site '
          'pair of every lump uses one layout in each of the five layout tables; for 23 record variants (planes, vertexes, primitives, faces, '
          'brush sides, brushes, leaf water data, leafs, nodes, texdata, texinfo, brush models, cubemaps, overlay fades/system levels, the three '
          'detail-prop classes; VitaminSource and v19 variants) the FULL field order of reader and writer agree label by label and the format has exactly that many '
          'values (record_roundtrip); every static-prop version has equal field ladders of the declared size; the overlay face block has the '
          'reader\'s size for every face count; each detail-prop class is written by its own branch; all 28 index tables of the writers have a '
-         'key that determines the record. The premises are kernel-checked for '
-         'today\'s source on every run (215 obligations). Models are compared byte-exactly with CPython struct, runlength_encode/decode, '
-         'binformat.find_or_* (with key functions), _lmp_write/read_textures, write_ent_data/_lmp_read_ents; generated lump contents (incl. '
-         'near-duplicate objects: equal in part or all of their attributes) are assigned to all 20 views '
-         'of a base BSP in 7 layouts x 13 static-prop versions, saved, re-read and compared field by field; values that do not fit must raise.',
-    note='Partial: the deferred offset table of the visibility header, physics blocks and their keyvalues text, the sprite dictionary record of '
-         'detail props, instance-name prefixes of outputs and mapversion are searched, not modelled. Field orders are generated by a name-based '
+         'key that determines the record; all 8 loops over local index tables reach every entry; the rebuild order is topological for the 28 '
+         'append edges. The premises are kernel-checked for '
+         'today\'s source on every run (241 obligations). Models are compared byte-exactly with CPython struct, runlength_encode/decode, '
+         'binformat.find_or_* (with key functions), binformat.DeferredWrites, _lmp_write/read_textures, write_ent_data/_lmp_read_ents, the '
+         'PHYSCOLLIDE lump of _lmp_write/read_bmodels; generated lump contents (incl. '
+         'near-duplicate objects, and objects reachable ONLY through references of other objects - grafted sub-trees of nodes, leafs, faces, '
+         'original faces, brushes, sides, planes, texinfo, texdata at depth >= 2) are assigned to all 20 views '
+         'of a base BSP in 7 layouts x 13 static-prop versions, saved, re-read and compared field by field; in a fifth of the worlds the '
+         're-read objects are then changed in place and the same BSP object is saved and re-read again; values that do not fit must raise; '
+         'every call into the implementation runs under a time limit (a hang is reported as a failing input).',
+    note='Partial: the sprite dictionary record of detail props, instance-name prefixes of outputs and mapversion are searched, not modelled; the '
+         'keyvalues text inside a physics block is opaque (its syntax is C01\'s). The work-list theorem is about the loop shape read from the '
+         'source (which list is iterated, live or snapshot, where the finder closure is used); that the body turns EVERY reference of the '
+         'record into an index through the finder is covered by record_fields_agree:nodes. Field orders are generated by a name-based '
          'data-flow analysis of each reader/writer (translate/c11_records.py, c11_overlayrec.py) whose '
          'reader/writer site pairing and branch flags (is_vitamin, has_ambient) are hand-written tables (site ordinals count sites of the '
          'normalised tree in tree order). translate/c11_norm.py (struct.Struct constants, single-use pure locals, table-entry aliases, '
-         'module constants, early continue, negated if/else) is trusted: it moves a pure expression past pure assignments to other names only. '
+         'module constants, early continue, negated if/else; `list(E)` around a loop iterable is dropped only when the function never grows E) '
+         'is trusted: it moves a pure expression past pure assignments to other names only. '
          'Hard-wired besides STREAMS/RECORDS: ADMITTED (texture names distinct after casefold), REDUNDANT (Overlay.face_count = len(faces)), '
-         'the lists of pure functions. f fields are modelled as 32-bit '
+         'the lists of pure functions. Hand models tied by correspondence only: Bin/BspDeferred.v (DeferredWrites; only defer(write=True) is '
+         'modelled, the form bsp.py uses - checked by an obligation for the visibility writer), Fmt/BspPhys.v reader/writer loops (their '
+         'configuration is read from the source). f fields are modelled as 32-bit '
          'patterns (CPython float<->float32 conversion trusted). math.ceil(n / 8) is modelled as exact rational ceiling (float division by 8 is '
          'exact below 2^53). The quoted-string scanner used by the entity lump model is Fmt/VmfText.hs (hand model of Tokenizer string '
          'scanning owned by C06), tied here by comparing ent_read with _lmp_read_ents. Entity-lump well-formedness: no ESC in values, no plain '
@@ -271,11 +292,24 @@ def run_correspondences(ck: Ck, gens: list) -> None:
                     reqs = next(g)
             except StopIteration:
                 continue
+            except Exception as e:      # noqa: BLE001
+                # an unexpected exception raised INSIDE the implementation while the cases are produced is a finding with a replay (the
+                # call stack), not an internal error of the check; an exception raised by the check's own code is re-raised
+                tb = __import__('traceback').extract_tb(e.__traceback__)
+                if not tb or '/srctools/' not in tb[-1].filename:
+                    raise
+                ck.obligation('correspondence:' + name.replace('corr_', ''), False, f'the implementation raised {type(e).__name__} while the cases were produced')
+                ck.violation('crash:' + name, f'{type(e).__name__}: {e} raised inside the implementation on an input generated by {name}'[:300],
+                             {'stage': name, 'error': f'{type(e).__name__}: {e}'[:300], 'how': f'checks/c11.py {name}: run the check',
+                              'stack': [f'{f.filename.split("/")[-1]}:{f.lineno} {f.name}' for f in tb][-6:]})
+                ck.explain('correspondence:' + name.replace('corr_', ''))
+                continue
             except U.ImplTimeout as e:
                 ck.obligation('correspondence:' + name.replace('corr_', ''), False, f'the implementation did not return while the cases were produced: {e}')
                 ck.violation('hang:' + name, f'a call into the implementation made by {name} did not return ({e}); the call stack at the time is in the replay',
                              {'stage': name, 'how': f'checks/c11.py {name}: run the check; the stage calls the implementation on generated inputs',
                               'stack': [f'{f.filename.split("/")[-1]}:{f.lineno} {f.name}' for f in __import__('traceback').extract_tb(e.__traceback__)][-6:]})
+                ck.explain('correspondence:' + name.replace('corr_', ''))
                 continue
             pending.append((g, [ex.submit(_eval_cases, ck, fn, ty, cases, name, imp, pre) for fn, ty, cases, name, imp, pre in reqs]))
         for g, futs in pending:
@@ -1247,7 +1281,11 @@ def run(ck: Ck) -> None:
                'non-trivial = more than one distinct index returned; rejection probes: one named out-of-field value each, non-trivial = rejected on save; '
                'texture tables: all 399 lists of <= 3 names of <= 2 letters over {A,B} + random lists built from prefixes/tails/concatenations of a '
                'pool, non-trivial = storage shared; entity lumps: 1-4 entities with keys/values/output fields over an alphabet with quote, backslash, '
-               'newline, tab, high byte, commas, non-trivial = lump contains a backslash; row sizes: every cluster count below the budget')
+               'newline, tab, high byte, commas, non-trivial = lump contains a backslash; row sizes: every cluster count below the budget; '
+               'physics blocks: 1-5 brush models with 0-3 solids of 0-300 bytes and keyvalues text or none, non-trivial = at least two blocks; '
+               'DeferredWrites: sequences of write / defer / set_data calls over 4 keys (keys deferred twice, slots never set, keys never '
+               'deferred included), non-trivial = at least two slots and a file results; worlds with the feature grafted contain objects '
+               'reachable only through references (depth >= 2), worlds with resave are changed in place after the re-read and saved again')
     ck.trusted.append('hand-written models Bin/Struct.v, Bin/RLE.v, Bin/FindInsert.v, Fmt/BspTexStrings.v, Fmt/BspEntLump.v (+ Fmt/VmfText.hs) '
                       '(tied by byte-exact correspondence on every run)')
     ck.trusted.append('translate/c11_records.py: name-based data-flow analysis that labels every struct slot with the attributes it carries; '
@@ -1259,6 +1297,9 @@ def run(ck: Ck) -> None:
                       'past pure assignments to other names only')
     ck.trusted.append('translate/c11_dedup.py ADMITTED (texture names pairwise distinct after casefold), translate/c11_overlayrec.py REDUNDANT '
                       '(Overlay.face_count = len(faces)), models Fmt/BspDedup.v, Fmt/BspFlagSplit.v, Fmt/BspOverlayRec.v')
+    ck.trusted.append('hand models Fmt/BspWorklist.v (Python list iteration over a growing list = position compared with the current length on '
+                      'every step), Fmt/BspPhys.v, Bin/BspDeferred.v (DeferredWrites over a file that is only appended to before the final pass); '
+                      'translate/c11_worklist.py (which loops walk a finder table, position-based inside/after classification), c11_phys.py')
     ck.assumptions.append('x86-64 little-endian host: the few native-order formats of bsp.py (i, ii, fff) are identified with their "<" forms; '
                           'the model accepts native formats only when all fields are numbers of one size (no alignment padding possible)')
     ck.assumptions.append('math.ceil(n / 8) is modelled as the exact rational ceiling (CPython float division by 8 is exact for n < 2^53)')
@@ -1313,7 +1354,19 @@ def run(ck: Ck) -> None:
             ck.extra['vis_row_size_wrong_for_cluster_counts(reader, writer; below 64)'] = w
         lap('glue_obligations')
     base = str(ck.scratch / 'base.bsp')
-    U.make_base(str(REPO / 'tests' / 'test_vec' / 'rot_main.bsp'), base)
+    try:
+        with U.time_limit(U.IMPL_TIME_LIMIT_BIG):
+            U.make_base(str(REPO / 'tests' / 'test_vec' / 'rot_main.bsp'), base)
+    except (Exception, U.ImplTimeout) as e:      # noqa: BLE001
+        # the repository's own test map cannot be read and saved any more: nothing else can run, and this is a failing input
+        ck.violation('base-file:read-or-save', f'the test map tests/test_vec/rot_main.bsp cannot be read, given an empty entity lump and saved: '
+                                               f'{type(e).__name__}: {e}'[:300],
+                     {'how': 'harness.c11_util.make_base(<repo>/tests/test_vec/rot_main.bsp, <scratch>/base.bsp)', 'error': f'{type(e).__name__}: {e}'[:300]})
+        ck.explain('instance:')
+        ck.explain('correspondence:')
+        ck.explain('translate:')
+        ck.explain('build:')
+        return
     wd = str(ck.scratch)
     if built:
         run_correspondences(ck, [corr_struct(ck, side), corr_rowsize(ck), corr_rle(ck), corr_find(ck), corr_tex(ck, base), corr_ent(ck), corr_phys(ck, base), corr_deferred(ck)])
